@@ -1,7 +1,7 @@
 (** C11 — property theorems only.  Each is closed by [exact <lemma>] and audited with
     [Print Assumptions]; [Example]s give non-vacuity and pin the model to concrete inputs. *)
 From Coq Require Import ZArith NArith List Bool Lia.
-From PV Require Import Hostile.Decode Hostile.Multi Hostile.Proofs Hostile.MultiProofs.
+From PV Require Import Hostile.Decode Hostile.Multi Hostile.Proofs Hostile.Segment Hostile.MultiProofs.
 Import ListNotations.
 Local Open Scope Z_scope.
 
@@ -20,6 +20,13 @@ Theorem c11_every_step_consumes : forall o st s obs nx e z obs' rest,
   s <> [] -> step o st s obs = SDone nx e z obs' rest -> (length rest < length s)%nat.
 Proof. exact step_progress. Qed.
 Print Assumptions c11_every_step_consumes.
+
+(** ** Message granularity does not depend on how TCP cuts the stream: processing [a] and, later,
+    [b] (resuming inside a half-received message if need be) is processing [a ++ b]. *)
+Theorem c11_segmentation : forall o st a b obs,
+  handle_bytes o st (a ++ b) obs = resume o (handle_bytes o st a obs) b.
+Proof. exact handle_bytes_app. Qed.
+Print Assumptions c11_segmentation.
 
 (** ** read_message: the length field *)
 Theorem c11_frame_len_minus1 : forall chk c a b d e r, i32_of a b d e = -1 ->
